@@ -137,6 +137,10 @@ def matchedSpans (o : Oracles) (c : Ctx) (d : TraceDb) (e : AttrExp) (tr : Bytes
   (spans c d).filter (fun k => k.1 == tr && spanHolds o c d e k)
 
 /-! ### aggregates -/
+/-- the index rows of a span agree on the span's duration (they are written from one span) -/
+def DurConsistent (d : TraceDb) : Prop :=
+  ∀ a ∈ d.attrs, ∀ b ∈ d.attrs, a.span = b.span → a.dur = b.dur
+
 def aggName : AggFn → String
   | .count => "count" | .sum => "sumIf" | .min => "minIf" | .max => "maxIf" | .avg => "avgIf"
 
@@ -169,6 +173,13 @@ def selMatches (o : Oracles) (ao : AggOracles) (c : Ctx) (d : TraceDb) (s : Sele
     (match s.agg with
      | none => true
      | some a => (match aggCmpText a with | .ok lit => aggHolds o ao c d a lit sps | .error _ => false))
+
+/-- the fragment of selectors the correctness theorem covers: conditions present, at most 64 distinct ones
+    (one bit each), distinct conditions have distinct texts, and an aggregate other than `count` names
+    what it aggregates -/
+structure SelOk (s : Selector) : Prop where
+  attrs : ∃ e, s.attrs = some e ∧ KeyInj (termsOf e) ∧ (analyzeCond [] e).1.length ≤ 64
+  agg : ∀ a, s.agg = some a → a.fn ≠ .count → a.attr ≠ ""
 
 /-! ### scripts: `&&` binds tighter than `||` -/
 def groups : Script → List (List Selector)
